@@ -87,34 +87,56 @@ class _Lin:
 
 def run(ctx: Ctx) -> None:
     ctx.explanation = (
-        "NARROW. Decided: D7.1 the error counter starts at 0, is only ever "
-        "changed by `errors += t`, and every such t is proven non-negative "
-        "under the guards on its path (linear entailment; abs() >= 0), so "
-        "the objective is non-negative; D7.2 both scratch tables are reset "
-        "by fill() before any of their cells is read or updated; D7.3 every "
-        "constraint parameter (home/away streak min/max, separation "
-        "min/max, games per pairing) flows into the guard or the amount of "
-        "at least one error term, byes and both opponent-consistency tests "
-        "each have an error site. NOT decided: 'zero iff feasible', the "
-        "per-rule counts, the upper bound (4D-1)n-1 - these are properties "
-        "of a streak/separation state machine over all plans.")
+        "D7.1 the error counter starts at 0, is only ever changed by "
+        "`errors += t`, and every such t is proven non-negative under the "
+        "guards on its path (linear entailment; abs() >= 0); D7.2 both "
+        "scratch tables are reset by fill() before any of their cells is "
+        "read or updated; D7.3 every constraint parameter flows into some "
+        "error term; D7.4 AGREEMENT WITH THE DOCUMENTED RULES: the body of "
+        "the per-(team, day) loop is normalised symbolically for each of "
+        "the three reachable streak states and compared, for each input "
+        "kind (bye / home game / away game) and on every consistent outcome "
+        "of the comparisons it makes (mirror entry, streak limits, "
+        "self-play, pair-index order, last meeting, separation limits - "
+        "decision trees pruned by Fourier-Motzkin), with a reference step "
+        "written down from rules 1-8 of the docstring: the counter, the "
+        "streak flags and lengths and the cells of both tables must change "
+        "identically; the scan visits every team's column over all days "
+        "in ascending order from the no-streak state; the final double "
+        "loop adds |h_ij + h_ji - D//(n-1)| + max(0, |h_ij - h_ji| - 1) for "
+        "every unordered pair (rules 9, 10); D7.5 the end of a column "
+        "closes the running streak. By induction over the scan the value "
+        "returned is the documented per-rule count for every plan, hence 0 "
+        "exactly for plans violating none of rules 1-10. NOT decided: that "
+        "the count never exceeds the declared upper bound (4D-1)n-1 (it "
+        "does not for streak minima above 3 - observed outside this check, "
+        "see DESIGN 10.6), and that rules 1-10 are the right definition of "
+        "feasibility.")
     ctx.rule("D7.1", "errors >= 0: every increment is non-negative")
     ctx.rule("D7.2", "scratch tables reset before use")
     ctx.rule("D7.3", "every constraint parameter is consumed")
     repo = ctx.repo
     fi = repo.func(MOD, "count_errors")
     acc = None
+    acc_init: Any = None
+    rets0 = [r for r in ast.walk(fi.node) if isinstance(r, ast.Return)
+             and r.value is not None]
+    ret_names = {n.id for r in rets0 for n in ast.walk(r.value)
+                 if isinstance(n, ast.Name) and n.id != "int"}
     for s in func_body(fi):
         if isinstance(s, (ast.Assign, ast.AnnAssign)) and isinstance(
                 s.targets[0] if isinstance(s, ast.Assign) else s.target,
-                ast.Name) and repo.const(fi.module, s.value) == 0:
+                ast.Name) and s.value is not None:
             nm = (s.targets[0] if isinstance(s, ast.Assign)
                   else s.target).id
-            rets = [r for r in ast.walk(fi.node)
-                    if isinstance(r, ast.Return)]
-            if any(nm in ast.unparse(r.value) for r in rets):
+            if nm in ret_names and acc is None:
                 acc = nm
+                acc_init = repo.const(fi.module, s.value)
     ctx.need(acc is not None, "count_errors: error accumulator")
+    ctx.ob("D7.1", fi, fi.node, acc_init == 0,
+           f"`{acc}` starts at 0" if acc_init == 0 else
+           f"`{acc}` starts at {acc_init!r}, not at 0: a feasible plan "
+           "would not score 0", construct="counter starts at zero")
     sites: list[tuple[ast.AugAssign, list[tuple[ast.expr, bool]]]] = []
     others: list[ast.AST] = []
 
@@ -231,3 +253,403 @@ def run(ctx: Ctx) -> None:
     ctx.ob("D7.1", lb, lb.node, okl, "lower_bound() == 0",
            construct="lower bound", nontrivial=False)
     del ub
+    ctx.rule("D7.4", "per-day step and final summation equal the documented "
+             "rules on every outcome of their comparisons")
+    ctx.rule("D7.5", "the end of the season ends the running streak")
+    _step_agreement(ctx, fi)
+    _final_agreement(ctx, fi)
+
+
+# ------------------------------------------------------------------ D7.4
+def _step_agreement(ctx: Ctx, fi: FuncInfo) -> None:
+    """The per-(team, day) step equals the documented rules, case by case."""
+    from sa.casesplit import Splitter, describe
+    from sa.kern import make_evaluator
+    from sa.symterm import Env, Poly, Unsupported, _eq, ite, show, show_cond
+
+    repo = ctx.repo
+    body = func_body(fi)
+    outer = next((s for s in body if isinstance(s, ast.For)), None)
+    ctx.need(outer is not None, "count_errors: loop over the teams")
+    inner = next((s for s in outer.body if isinstance(s, ast.For)), None)
+    ctx.need(inner is not None, "count_errors: loop over the days")
+    yp = fi.params[0]
+    t1n = outer.target.id if isinstance(outer.target, ast.Name) else None
+    ctx.need(t1n is not None, "count_errors: team loop variable")
+    # ---- loop structure: all teams, the column of that team, days ascending
+    ok_outer = ast.unparse(outer.iter).replace(" ", "") == "range(teams)" \
+        and any(isinstance(s, ast.Assign) and isinstance(
+            s.targets[0], ast.Tuple) and [
+            t.id for t in s.targets[0].elts if isinstance(t, ast.Name)] == [
+            "days", "teams"] and ast.unparse(s.value) == f"{yp}.shape"
+            for s in body)
+    col = None
+    for s in outer.body:
+        if isinstance(s, (ast.Assign, ast.AnnAssign)) and s.value is not None \
+                and ast.unparse(s.value).replace(" ", "") == \
+                f"{yp}[:,{t1n}]":
+            tg = s.targets[0] if isinstance(s, ast.Assign) else s.target
+            col = tg.id if isinstance(tg, ast.Name) else None
+    it = inner.iter
+    ok_inner = col is not None and isinstance(it, ast.Call) and ast.unparse(
+        it.func) == "enumerate" and len(it.args) == 1 and ast.unparse(
+        it.args[0]) == col and isinstance(inner.target, ast.Tuple) and len(
+        inner.target.elts) == 2 and all(
+        isinstance(t, ast.Name) for t in inner.target.elts)
+    ctx.ob("D7.4", fi, outer, ok_outer and ok_inner,
+           "every team's column of the plan is scanned over all days in "
+           "ascending order" if ok_outer and ok_inner else
+           "the scan is not `for team in range(teams): for day, entry in "
+           "enumerate(y[:, team])`", construct="scan structure")
+    if not (ok_outer and ok_inner):
+        return
+    dayn, entn = (t.id for t in inner.target.elts)
+    ev = make_evaluator(repo, fi)
+    ev.tolerant_loops = True
+    base = Env()
+    for a in (yp, "temp_1", "temp_2"):
+        base.vars[a] = ("array", a)
+    for p_ in fi.params:
+        base.vars.setdefault(p_, Poly.var(p_))
+    base.vars["errors"] = Poly.var("E")
+    base.vars["days"] = Poly.var("days")
+    base.vars["teams"] = Poly.var("teams")
+    base.vars[t1n] = Poly.var("t1")
+    base_keys = set(base.vars)
+    try:
+        pre = base.copy()
+        for s in outer.body:
+            if s is inner:
+                break
+            if isinstance(s, (ast.Assign, ast.AnnAssign)) and s.value is not \
+                    None and ast.unparse(s.value).replace(
+                    " ", "") == f"{yp}[:,{t1n}]":
+                continue
+            pre = ev.stmt(pre, s)
+    except Unsupported as u:
+        ctx.ob("D7.4", fi, u.node or outer, False,
+               f"cannot normalise the per-team initialisation: {u}",
+               construct="initial streak state")
+        return
+    flags = [k for k, v in pre.vars.items() if v in (("true",), ("false",))
+             and k not in base_keys]
+    hflag = next((f for f in flags if "home" in f), None)
+    aflag = next((f for f in flags if "away" in f), None)
+    hlen = next((k for k in pre.vars if "home" in k and "len" in k), None)
+    alen = next((k for k in pre.vars if "away" in k and "len" in k), None)
+    ok_init = hflag is not None and aflag is not None and hlen is not None \
+        and alen is not None and pre.vars[hflag] == ("false",) and \
+        pre.vars[aflag] == ("false",)
+    if not ok_init:
+        ctx.notes.append(f"D7.4 init: flags={flags} hlen={hlen} alen={alen} "
+                         f"vars={ {k: str(v) for k, v in pre.vars.items()} }")
+    ctx.ob("D7.4", fi, outer, ok_init,
+           "every team starts the season outside any streak" if ok_init else
+           "the streak flags are not both False at the start of a team's "
+           "column", construct="initial streak state")
+    if not ok_init:
+        return
+    # ---- symbols and reference
+    E, t1, day, T = (Poly.var(x) for x in ("E", "t1", "day", "T"))
+    hl, al = Poly.var("hl"), Poly.var("al")
+    P = {p_: Poly.var(p_) for p_ in PARAMS}
+    one, zero = Poly.const(1), Poly.const(0)
+    tid = pre.vars.get("team_1_id")
+    ok_tid = isinstance(tid, Poly) and tid == t1 + one
+    ctx.ob("D7.4", fi, outer, ok_tid,
+           "team ids are column index + 1" if ok_tid else
+           "the id a team is known by in the plan is not its column index "
+           "+ 1", construct="team id")
+    if not ok_tid:
+        return
+
+    def cell(arr: str, *idx: Poly) -> Poly:
+        return Poly.atom(("cell", arr, tuple(idx)))
+
+    def short(ln: Poly, mn: Poly) -> Poly:
+        return ite(("lt", ln, mn), mn - ln, zero)
+
+    def tri(x: Poly) -> Poly:
+        return Poly.atom(("app", "floordiv", (x * x - x, Poly.const(2))))
+
+    n_cases = 0
+    problems: list[str] = []
+    for sname, hf, af in (("no streak", False, False),
+                          ("home streak", True, False),
+                          ("away streak", False, True)):
+        env = pre.copy()
+        env.vars[hflag] = ("true",) if hf else ("false",)
+        env.vars[aflag] = ("true",) if af else ("false",)
+        env.vars[hlen] = hl
+        env.vars[alen] = al
+        env.vars[dayn] = day
+        env.vars[entn] = T
+        try:
+            out = ev.block(env, inner.body)
+        except Unsupported as u:
+            problems.append(f"[{sname}] cannot normalise the step: {u}")
+            continue
+        got_E = out.vars.get("errors")
+        got = {"H": out.vars.get(hflag), "A": out.vars.get(aflag),
+               "hl": out.vars.get(hlen), "al": out.vars.get(alen)}
+        # ---------------- reference (documented rules 1-8), per input kind
+        sp = Splitter()
+        stores = dict(out.stores)
+        arrs = sorted({k[0] for k in stores})
+        if arrs != ["temp_1", "temp_2"] or len(stores) != 2:
+            problems.append(
+                f"[{sname}] the step updates "
+                f"{sorted((k[0], len(k[1])) for k in stores)} - expected "
+                "exactly one cell of temp_1 (last meeting day) and one of "
+                "temp_2 (home games per pairing)")
+            continue
+        (k1, v1), = [(k, v) for k, v in stores.items() if k[0] == "temp_1"]
+        (k2, v2), = [(k, v) for k, v in stores.items() if k[0] == "temp_2"]
+        for kind, kfacts in (
+                ("bye", sp.facts_of(_eq(T, zero), True)[0]),
+                ("home game", sp.facts_of(("lt", zero, T), True)[0]),
+                ("away game", sp.facts_of(("lt", T, zero), True)[0])):
+            if kind == "bye":
+                end = (short(al, P["away_streak_min"]) if af else zero) + (
+                    short(hl, P["home_streak_min"]) if hf else zero)
+                ref_E = E + one + end
+                refH = refA = False
+                ref_len = None
+                ref_k1 = None
+                ref_v2 = Poly.atom(("cell",) + k2)
+            else:
+                home = kind == "home game"
+                other = (T - one) if home else (-T - one)
+                want_cell = -(t1 + one) if home else (t1 + one)
+                mirror = ite(_eq(cell(yp, day, other), want_cell), zero, one)
+                cont = hf if home else af      # the own streak continues
+                ln, mx = (hl, P["home_streak_max"]) if home else (
+                    al, P["away_streak_max"])
+                ends_other = (short(al, P["away_streak_min"]) if af else
+                              zero) if home else (
+                    short(hl, P["home_streak_min"]) if hf else zero)
+                streak = ite(("lt", mx, ln + one), one, zero) if cont \
+                    else ends_other
+                idx = ite(("lt", other, t1), tri(t1) + other,
+                          tri(other) + t1)
+                last = cell("temp_1", idx)
+                d = day - last - one
+                amount = ite(("lt", d, P["separation_min"]),
+                             P["separation_min"] - d,
+                             ite(("lt", P["separation_max"], d),
+                                 d - P["separation_max"], zero))
+                sep = ite(_eq(other, t1), zero, ite(
+                    ("le", zero, last), ite(("lt", last, day), amount, zero),
+                    zero))
+                ref_E = E + mirror + streak + sep
+                refH, refA = home, not home
+                ref_len = (ln + one) if cont else one
+                ref_k1 = idx
+                ref_v1 = ite(_eq(other, t1), Poly.atom(("cell",) + k1), ite(
+                    ("le", zero, last), ite(("lt", last, day), day,
+                                            Poly.atom(("cell",) + k1)), day))
+                ref_v2 = (cell("temp_2", t1, other) + one) if home else \
+                    Poly.atom(("cell",) + k2)
+            comps: list[tuple[str, Any, Any]] = [
+                ("the error counter", got_E, ref_E),
+                ("the in-home-streak flag", got["H"],
+                 ("true",) if refH else ("false",)),
+                ("the in-away-streak flag", got["A"],
+                 ("true",) if refA else ("false",))]
+            if ref_len is not None:
+                comps.append(("the running streak length",
+                              got["hl"] if refH else got["al"], ref_len))
+            comps.append(("the home-game table temp_2", v2, ref_v2))
+            if kind == "home game":
+                comps.append(("the temp_2 cell updated", k2[1],
+                              (t1, T - one)))
+            if ref_k1 is not None:
+                comps.append(("the last-meeting table temp_1", v1, ref_v1))
+                comps.append(("the temp_1 cell updated (pair index)",
+                              k1[1][0], ite(_eq(other, t1), k1[1][0],
+                                            ref_k1)))
+            else:
+                comps.append(("the last-meeting table temp_1", v1,
+                              Poly.atom(("cell",) + k1)))
+            for what, g, r in comps:
+                try:
+                    for facts, res, trail in sp.cases((g, r), list(kfacts)):
+                        n_cases += 1
+                        gg, rr = res
+                        same = all(sp.equal(x, y_, facts) for x, y_ in zip(
+                            gg, rr)) if isinstance(gg, tuple) and not \
+                            (gg and isinstance(gg[0], str)) else \
+                            sp.equal(gg, rr, facts)
+                        if not same:
+                            problems.append(
+                                f"[{sname}, {kind}, "
+                                f"{describe(trail)[:300]}]: {what} becomes "
+                                f"{_sh(gg)} but the documented rules give "
+                                f"{_sh(rr)}")
+                            break
+                except Unsupported as u:
+                    problems.append(f"[{sname}, {kind}] {what}: case "
+                                    f"analysis failed: {u}")
+        # ---- at most one streak is open afterwards (inductive invariant)
+    # ---- D7.5: the season's end ends the running streak as well
+    tail = outer.body[outer.body.index(inner) + 1:]
+    t_problems: list[str] = []
+    for sname, hf, af in (("no streak", False, False),
+                          ("home streak", True, False),
+                          ("away streak", False, True)):
+        env = pre.copy()
+        env.vars[hflag] = ("true",) if hf else ("false",)
+        env.vars[aflag] = ("true",) if af else ("false",)
+        env.vars[hlen] = hl
+        env.vars[alen] = al
+        env.vars["errors"] = E
+        try:
+            out = ev.block(env, tail) if tail else env
+        except Unsupported as u:
+            t_problems.append(f"[{sname}] cannot normalise: {u}")
+            continue
+        ref = E + (short(hl, P["home_streak_min"]) if hf else zero) + (
+            short(al, P["away_streak_min"]) if af else zero)
+        sp = Splitter()
+        for facts, (g, r), trail in sp.cases((out.vars.get("errors"), ref),
+                                             sp.facts_of(("le", one, hl),
+                                                         True)[0]
+                                             + sp.facts_of(("le", one, al),
+                                                           True)[0]):
+            if not sp.equal(g, r, facts):
+                t_problems.append(
+                    f"[{sname}; {describe(trail)[:160]}]: after the last "
+                    f"day the counter is {_sh(g)}, rule 3/5 gives {_sh(r)}")
+    ctx.ob("D7.5", fi, tail[0] if tail else inner, not t_problems,
+           "a streak still running after the last day is charged when it "
+           "is shorter than its minimum (rules 3 and 5)" if not t_problems
+           else "a home/away streak that is still running when the season "
+           "ends is never compared with its minimum length: "
+           + t_problems[0], construct="open streak at the end of the season",
+           witness=None if not t_problems else {"problems": t_problems[:4]})
+    ctx.count("step_cases", n_cases)
+    ok = not problems and n_cases >= 30
+    ctx.ob("D7.4", fi, inner, ok,
+           f"in all {n_cases} consistent outcomes of the step's comparisons "
+           "(3 streak states x bye/home/away x mirror entry x streak limits "
+           "x self-play x separation table) the counter, the streak state "
+           "and the two tables change exactly as documented rules 1-8 "
+           "prescribe" if ok else
+           f"{len(problems)} outcome(s) deviate from the documented rules, "
+           "first: " + (problems[0] if problems else
+                        f"only {n_cases} cases explored"),
+           construct="per-day step vs documented rules",
+           witness=None if ok else {"problems": problems[:6]})
+    del show_cond, show
+
+
+def _sh(v: Any) -> str:
+    from sa.symterm import Poly, show, show_cond
+    if isinstance(v, Poly):
+        return show(v)[:200]
+    if isinstance(v, tuple) and v and isinstance(v[0], str):
+        return show_cond(v)[:200]
+    if isinstance(v, tuple):
+        return "(" + ", ".join(_sh(x) for x in v) + ")"
+    return str(v)
+
+
+def _final_agreement(ctx: Ctx, fi: FuncInfo) -> None:
+    """Rules 9 and 10: the pairing counts summed after the scan."""
+    from sa.casesplit import Splitter, describe
+    from sa.kern import make_evaluator
+    from sa.symterm import Env, Poly, Unsupported, ite
+
+    repo = ctx.repo
+    body = func_body(fi)
+    loops = [s for s in body if isinstance(s, ast.For)]
+    ctx.need(len(loops) >= 2, "count_errors: pairing summation loop")
+    lp = loops[-1]
+    inner = next((s for s in lp.body if isinstance(s, ast.For)), None)
+    ok_nest = inner is not None and isinstance(
+        lp.target, ast.Name) and isinstance(
+        inner.target, ast.Name) and ast.unparse(lp.iter).replace(
+        " ", "") == "range(teams)" and ast.unparse(inner.iter).replace(
+        " ", "") == f"range({lp.target.id})" and len(lp.body) == 1
+    ctx.ob("D7.4", fi, lp, ok_nest,
+           "the pairing counts are summed over every unordered pair j < i "
+           "< teams once" if ok_nest else
+           "the summation does not visit every unordered pair once",
+           construct="pairing summation loops")
+    if not ok_nest:
+        return
+    ev = make_evaluator(repo, fi)
+    env = Env()
+    env.vars["temp_2"] = ("array", "temp_2")
+    E, i, j = Poly.var("E"), Poly.var("i"), Poly.var("j")
+    env.vars.update({"errors": E, lp.target.id: i, inner.target.id: j,
+                     "days": Poly.var("days"), "teams": Poly.var("teams")})
+    try:
+        for s in body:
+            if s is lp:
+                break
+            if isinstance(s, (ast.Assign, ast.AnnAssign)) and isinstance(
+                    s.targets[0] if isinstance(s, ast.Assign) else s.target,
+                    ast.Name) and (s.targets[0] if isinstance(
+                        s, ast.Assign) else s.target).id not in (
+                    "errors",) and not any(
+                    isinstance(x, ast.Attribute) for x in ast.walk(s.value)):
+                env = ev.stmt(env, s)
+        env.vars["errors"] = E
+        out = ev.block(env, inner.body)
+    except Unsupported as u:
+        ctx.ob("D7.4", fi, u.node or lp, False,
+               f"cannot normalise the pairing summation: {u}",
+               construct="pairing summation vs rules 9/10")
+        return
+    got = out.vars.get("errors")
+
+    def cell(a: Poly, b: Poly) -> Poly:
+        return Poly.atom(("cell", "temp_2", (a, b)))
+
+    def ab(p: Poly) -> Poly:
+        return ite(("lt", p, Poly.const(0)), -p, p)
+    one = Poly.const(1)
+    G = Poly.atom(("app", "floordiv", (Poly.var("days"),
+                                       Poly.var("teams") - one)))
+    ij, ji = cell(i, j), cell(j, i)
+    dd = ab(ij - ji)
+    ref = E + ab(ij + ji - G) + ite(("lt", one, dd), dd - one, Poly.const(0))
+    # the code's abs() is an application atom: rewrite it as a conditional
+    def unabs(p: Any) -> Any:
+        if not isinstance(p, Poly):
+            return p
+        sub = {}
+        for a in p.atoms():
+            if a[0] == "app" and a[1] == "abs":
+                sub[a] = ab(unabs(a[2][0]))
+            elif a[0] == "ite":
+                sub[a] = ite(_unabs_c(a[1]), unabs(a[2]), unabs(a[3]))
+        return p.subst(sub) if sub else p
+
+    def _unabs_c(c: tuple) -> tuple:
+        if c[0] in ("lt", "le", "eq"):
+            return (c[0], unabs(c[1]), unabs(c[2]))
+        if c[0] in ("not", "and", "or"):
+            return (c[0],) + tuple(_unabs_c(x) for x in c[1:])
+        return c
+    sp = Splitter()
+    problems = []
+    n = 0
+    try:
+        for facts, (g, r), trail in sp.cases((unabs(got), ref)):
+            n += 1
+            if not sp.equal(g, r, facts):
+                problems.append(f"[{describe(trail)[:200]}]: the counter "
+                                f"becomes {_sh(g)}, rules 9/10 give "
+                                f"{_sh(r)}")
+    except Unsupported as u:
+        problems.append(f"case analysis failed: {u}")
+    ctx.count("summation_cases", n)
+    ok = not problems and n >= 4
+    ctx.ob("D7.4", fi, inner, ok,
+           f"for every pair the counter grows by |h_ij + h_ji - D//(n-1)| + "
+           f"max(0, |h_ij - h_ji| - 1) ({n} sign cases)" if ok else
+           "the pairing summation deviates from rules 9/10: "
+           + (problems[0] if problems else f"only {n} cases"),
+           construct="pairing summation vs rules 9/10")
